@@ -251,7 +251,21 @@ def gen_case(rng, tier="quick"):
         main["blueprint"] = blueprint
     patches = []
     if rng.random() < (0.15 if tier == "quick" else 0.04):
-        plain = [c for c in comps if "$import" not in c and not c.get("workflowAttributes", {}).get("replicate")
+        # nodes that exist under the name of their component: not replicated, directly or by consuming a replicated one
+        repl = {(c["stage"], c["name"]) for c in comps if c.get("workflowAttributes", {}).get("replicate")}
+        grew = True
+        while grew:
+            grew = False
+            for c in comps:
+                if "$import" in c or (c["stage"], c["name"]) in repl or c.get("workflowAttributes", {}).get("aggregate"):
+                    continue
+                for r in c.get("references") or []:
+                    m = re.match(r"(?:stage(\d+)\.)?([^:/]+):", r)
+                    if m and (int(m.group(1)) if m.group(1) else c["stage"], m.group(2)) in repl:
+                        repl.add((c["stage"], c["name"]))
+                        grew = True
+                        break
+        plain = [c for c in comps if "$import" not in c and (c["stage"], c["name"]) not in repl
                  and c["name"] not in ("follow", "report")]
         tgt = rng.choice(plain)
         node = "stage%d.%s" % (tgt["stage"], tgt["name"])
@@ -826,7 +840,11 @@ def run_impl(case, tmp):
                 out["control_error"] = "%s: %s" % (type(exc).__name__, str(exc)[:300])
                 ctl = None
         for p in case["patches"]:
-            g.setOptionForNode(p["node"], p["key"], p["value"])
+            try:
+                g.setOptionForNode(p["node"], p["key"], p["value"])
+            except Exception as exc:  # noqa
+                # (the experiment has no node of that name: nothing is patched, the other clauses are still checked)
+                out["patch_error"] = "%s: %s" % (type(exc).__name__, str(exc)[:200])
         if case.get("explicit_store", True):
             exp.configuration.store_unreplicated_flowir_to_disk()
         out["unrep_raw"] = exp.configuration._unreplicated.raw()
@@ -1361,6 +1379,8 @@ def check_case(ctx, case, tmp_root, record=None):
             ctx.fail("iteration-after-reload-differs-from-never-reloaded-experiment", case, det)
     if out.get("control_error"):
         ctx.tag("control-experiment-failed")
+    if out.get("patch_error"):
+        ctx.tag("patch-not-applicable")
     parsed = [canon_flowir(yaml.safe_load(b)) for b in out["stored"]]
     # "the same set of components": the description on disk lists, by (stage, name), exactly the components of the
     # description held by the object that wrote it last (creator, iterating object, updating load) or that was loaded
